@@ -2,14 +2,17 @@
 
 A. exhaustive: Stopper.stop_early / stop_now / which_best_in_recent_history on ALL loss histories of
    length L over {0,1,2,3} x all i x patience x (atol, rtol); Coq enumerates the same space and the
-   packed result words must be equal (one N literal per method and configuration).
+   packed result words must be equal (one N literal per method and configuration).  Forced strata: negative
+   losses; attributes assigned on an existing Stopper instance (model: apply_ops on the constructed record).
 B. optim_flat end-to-end with a scripted optimizer (positions prescribed per iteration): iteration,
    iteration_best, restored position, history shape, model state; Coq re-runs optim_loop on the
    observed validation losses.
 C. mini-batching: the key handed to the batch generator in every iteration is captured and compared
    with the model's key path (carry advanced); batches must be re-drawn.
 D. optim_flat end-to-end with several NAMED parameters in non-alphabetical order: returned position and
-   position history compared name by name with StopperPos.optim_flat_full (c20_pos.py).
+   position history compared name by name with StopperPos.optim_flat_full (c20_pos.py); validation models of
+   equal and different size than the training model (other data), recorded losses against an independent
+   evaluation; one run with a Stopper whose attributes are assigned after construction.
 E. _generate_batch_indices against StopperPos.batch_indices (c20_pos.py).
 """
 from __future__ import annotations
@@ -79,6 +82,38 @@ def part_a(ctx):
         nev += 3 * len(se)
         out.append({"cfg": (mi, p, at, rt), "L": Ln, "se": se, "sn": sn, "wb": wb, "hs": hs_n, "neg": True})
     ctx.hist("A.configs_negative_losses", len(cfgs_n))
+    # forced stratum: attributes ASSIGNED on an existing instance before use (Stopper is a mutable dataclass; optim_flat
+    # itself re-assigns stopper.patience): behaviour must follow the CURRENT values.  (constructor kwargs, assignments)
+    F = Fraction
+    reassigned = [
+        ({"max_iter": L, "patience": 2, "atol": 0.0}, [("rtol", F(1, 2))]),                      # rtol default 0 -> 1/2
+        ({"max_iter": L, "patience": 3, "atol": 0.0, "rtol": 0.0}, [("rtol", F(1))]),
+        ({"max_iter": L, "patience": 2, "atol": 0.0, "rtol": 1.0}, [("rtol", F(0))]),            # and back to 0
+        ({"max_iter": L, "patience": 2}, [("atol", F(1))]),                                      # atol default 1e-3 -> 1
+        ({"max_iter": L, "patience": 2, "atol": 1.0, "rtol": 0.0}, [("atol", F(0))]),
+        ({"max_iter": L, "patience": 1, "atol": 0.0, "rtol": 0.0}, [("patience", 3)]),
+        ({"max_iter": L + 3, "patience": 2, "atol": 0.5, "rtol": 0.0}, [("max_iter", L - 2)]),
+        ({"max_iter": 30, "patience": 5}, [("rtol", F(1, 2)), ("atol", F(0)), ("patience", 2), ("max_iter", L)]),
+        ({"max_iter": L, "patience": 2, "atol": 0.0}, [("rtol", F(1)), ("rtol", F(1, 2))]),      # assigned twice: last wins
+    ]
+    for (kw, assigns) in reassigned:
+        st = Stopper(**kw)
+        cur = {name: getattr(st, name) for name in ("max_iter", "patience", "atol", "rtol")}     # as constructed (with defaults)
+        asbuilt = {k: str(F(v)) for k, v in cur.items()}
+        for (name, v) in assigns:
+            setattr(st, name, int(v) if name in ("max_iter", "patience") else float(v))
+            cur[name] = v
+        cfg = (int(cur["max_iter"]), int(cur["patience"]), F(cur["atol"]), F(cur["rtol"]))
+        se = np.asarray(jax.jit(jax.vmap(lambda i, h: st.stop_early(i, h)))(I, H)).astype(bool)
+        sn = np.asarray(jax.jit(jax.vmap(lambda i, h: st.stop_now(i, h)))(I, H)).astype(bool)
+        wb = np.asarray(jax.jit(jax.vmap(lambda i, h: st.which_best_in_recent_history(i, h)))(I, H)).astype(int)
+        nev += 3 * len(se)
+        out.append({"cfg": cfg, "L": L, "se": se, "sn": sn, "wb": wb, "hs": hs,
+                    "constructed": asbuilt, "constructed_kwargs": {k: str(F(v)) for k, v in kw.items()},
+                    "assigned": [[name, str(v)] for name, v in assigns]})
+    ctx.hist("A.configs_attributes_assigned_after_construction", len(reassigned))
+    for name in ("max_iter", "patience", "atol", "rtol"):
+        ctx.hist("A.assigned." + name, sum(1 for _, a in reassigned if any(n == name for n, _ in a)))
     ctx.count(nev, sum(int(o["se"].sum()) + int((~o["se"]).sum() > 0) for o in out))
     ctx.hist("A.configs", len(cfgs))
     ctx.hist("A.method_evaluations", nev)
@@ -125,8 +160,17 @@ Proof. vm_compute. reflexivity. Qed.
 """
             paths.append(ctx.new_shard(txt, f"cases_A{k:02d}_neg"))
             continue
+        st_term = f"mkStopper {natlit(mi)} {natlit(p)} {qlit(at)} {qlit(rt)}"
+        if o.get("assigned"):
+            # the model instance as constructed (attribute values read back after construction), then the assignments
+            k0 = o["constructed"]
+            ops = {"max_iter": lambda v: f"SetMaxIter {natlit(int(Fraction(v)))}", "patience": lambda v: f"SetPatience {natlit(int(Fraction(v)))}",
+                   "atol": lambda v: f"SetAtol {qlit(Fraction(v))}", "rtol": lambda v: f"SetRtol {qlit(Fraction(v))}"}
+            st_term = (f"apply_ops (mkStopper {natlit(int(Fraction(k0['max_iter'])))} {natlit(int(Fraction(k0['patience'])))} "
+                       f"{qlit(Fraction(k0['atol']))} {qlit(Fraction(k0['rtol']))}) "
+                       + lst(ops[n](v) for n, v in o["assigned"]))
         txt = HEADER + f"""
-Definition st := mkStopper {natlit(mi)} {natlit(p)} {qlit(at)} {qlit(rt)}.
+Definition st := {st_term}.
 Lemma shard_ok_stop_early : nlist_eqb (pack_bits (enum_stop_early st {natlit(o['L'])})) ({pack_bits(o['se'])})%N = true.
 Proof. vm_compute. reflexivity. Qed.
 Lemma shard_ok_stop_now : nlist_eqb (pack_bits (enum_stop_now st {natlit(o['L'])})) ({pack_bits(o['sn'])})%N = true.
@@ -134,7 +178,7 @@ Proof. vm_compute. reflexivity. Qed.
 Lemma shard_ok_which_best : nlist_eqb (pack_nibbles (enum_which_best st {natlit(o['L'])})) ({pack_nibbles(o['wb'])})%N = true.
 Proof. vm_compute. reflexivity. Qed.
 """
-        paths.append(ctx.new_shard(txt, f"cases_A{k:02d}"))
+        paths.append(ctx.new_shard(txt, f"cases_A{k:02d}" + ("_assigned" if o.get("assigned") else "")))
     return paths
 
 
@@ -160,14 +204,22 @@ def oracle_a(a):
             for i in range(L):
                 want = py_rule(mi, p, at, rt, i, hh)
                 if bool(o["sn"][k]) != want:
-                    return {"why": f"Stopper.stop_now returns {bool(o['sn'][k])} where the documented rule says {want}",
-                            "max_iter": mi, "patience": p, "atol": str(at), "rtol": str(rt), "i": i, "history": [int(x) for x in h]}
+                    r = {"why": f"Stopper.stop_now returns {bool(o['sn'][k])} where the documented rule says {want}",
+                         "max_iter": mi, "patience": p, "atol": str(at), "rtol": str(rt), "i": i, "history": [int(x) for x in h]}
+                    if o.get("assigned"):
+                        r["why"] += (f" for the current attribute values (constructed with {o['constructed_kwargs']}, then assigned "
+                                     + ", ".join(f"{n}={v}" for n, v in o["assigned"]) + ")")
+                        r["constructed"], r["assigned"] = o["constructed_kwargs"], o["assigned"]
+                    return r
                 if i >= p - 1:
                     win = hh[i - p + 1: i + 1]
                     wantb = i - p + 1 + win.index(min(win))
                     if int(o["wb"][k]) != wantb:
-                        return {"why": f"which_best_in_recent_history returns {int(o['wb'][k])}, the first minimiser of the window is {wantb}",
-                                "patience": p, "i": i, "history": [int(x) for x in h]}
+                        r = {"why": f"which_best_in_recent_history returns {int(o['wb'][k])}, the first minimiser of the window is {wantb}",
+                             "patience": p, "i": i, "history": [int(x) for x in h]}
+                        if o.get("assigned"):
+                            r.update({"max_iter": mi, "atol": str(at), "rtol": str(rt), "constructed": o["constructed_kwargs"], "assigned": o["assigned"]})
+                        return r
                 k += 1
     return None
 
@@ -516,7 +568,8 @@ def run(ctx) -> int:
         "exact rationals + inf / NaN, jax.random.permutation as an oracle argument, jnp.array_split by numpy's rule), Python / jax "
         "ints as unbounded Z; result of this run in coverage.source_tie"]
     ctx.cov["rule"] = ("A: every loss history of the stated length over {0,1,2,3} x every i x 38 stopper configurations, and every "
-                       "history of length 5 over the negative losses {-3,-2,-1,0} x every i x 2 configurations with rtol > 0 "
+                       "history of length 5 over the negative losses {-3,-2,-1,0} x every i x 2 configurations with rtol > 0, and 9 configurations "
+                       "whose attributes (max_iter / patience / atol / rtol, each) are assigned on the instance after construction "
                        "(exhaustive; distinct = histories on which stop_early fires, all distinct); B: optim_flat runs with "
                        "scripted positions (distinct scripts); C: mini-batch runs with captured keys; D: optim_flat runs with 2-3 named "
                        "parameters handed over in non-alphabetical order (distinct name lists x scripts); E: batch index calls "
@@ -525,6 +578,10 @@ def run(ctx) -> int:
                                  "extract_position of the returned state equals the returned position exactly)")
     ctx.tested_not_proved.append("D: jax rebuilds dicts that pass through tree.map / while_loop with sorted keys (model: pytree); "
                                  "the scripted optimizer produces the prescribed positions")
+    ctx.tested_not_proved.append("D: history['loss_validation'] / history['loss_train'] equal an independent evaluation (fresh models, direct "
+                                 "assignment, eager) of the validation / training model at the recorded positions (tolerance 1e-4), also with a "
+                                 "validation model of the same size as the training model; iteration_best minimises that independent validation loss "
+                                 "in the final window; the Coq model takes the observed validation losses as its loss stream")
     ctx.tested_not_proved.append("E: jax.random.permutation(key, n) is a permutation of 0..n-1 (hypothesis of C20_batches_partition, "
                                  "checked on every drawn permutation)")
     ctx.assume.append("C20_position_restored: parameter names distinct, 1 <= patience <= max_iter, restore_best_position only with save_position_history")
@@ -552,7 +609,13 @@ def replay(rp) -> int:
         p, i = int(r["patience"]), int(r["i"])
         mi = int(r.get("max_iter", len(h)))
         at, rt = Fraction(r.get("atol", 0)), Fraction(r.get("rtol", 0))
-        st = Stopper(max_iter=mi, patience=p, atol=float(at), rtol=float(rt))
+        if r.get("assigned"):           # the recorded construction, then the recorded assignments
+            k0 = r["constructed"]
+            st = Stopper(**{k: (int(Fraction(v)) if k in ("max_iter", "patience") else float(Fraction(v))) for k, v in k0.items()})
+            for name, v in r["assigned"]:
+                setattr(st, name, int(Fraction(v)) if name in ("max_iter", "patience") else float(Fraction(v)))
+        else:
+            st = Stopper(max_iter=mi, patience=p, atol=float(at), rtol=float(rt))
         H = jnp.asarray(h, dtype=jnp.float32)
         sn = bool(st.stop_now(jnp.int32(i), H))
         wb = int(st.which_best_in_recent_history(jnp.int32(i), H))
